@@ -60,10 +60,10 @@ sbox_ob!(c_sbox_d6, sbox_d6, r::SINV[6]);
 sbox_ob!(c_sbox_d7, sbox_d7, r::SINV[7]);
 
 // The dispatchers, for EVERY index (not only 0..32): S_{index mod 8}, never the unreachable!() arm.
-// @ob name=c_apply_s props=C08,C20 fn=serpent::bitslice::apply_s timeout=600
+// @ob name=c_apply_s_fwd props=C08,C20 fn=serpent::bitslice::apply_s timeout=600
 #[kani::proof]
 #[kani::unwind(33)]
-fn c_apply_s() {
+fn c_apply_s_fwd() {
     let index: usize = kani::any();
     let w: [u32; 4] = kani::any();
     kani::cover!(index % 8 == 7);
@@ -88,9 +88,9 @@ fn l_apply_s_inverse() {
     assert!(eq4(&apply_s(index, apply_s_inv(index, w)), &w));
 }
 
-// @ob name=c_linear_transform props=C08,C20 fn=serpent::bitslice::linear_transform timeout=300
+// @ob name=c_linear_transform_fwd props=C08,C20 fn=serpent::bitslice::linear_transform timeout=300
 #[kani::proof]
-fn c_linear_transform() {
+fn c_linear_transform_fwd() {
     let w: [u32; 4] = kani::any();
     assert!(eq4(&linear_transform(w), &r::lt(w)));
 }
